@@ -112,6 +112,15 @@ type CacheSpec struct {
 	MemSize  int         `json:"mem_size"`
 	MaxTTL   int         `json:"max_ttl"`
 	IpMarker []RangeSpec `json:"ip_marker,omitempty"`
+	// Redis: a second-level cache on a simulated redis server (vredis).
+	Redis *RedisSpec `json:"redis,omitempty"`
+}
+
+// RedisSpec is the behaviour of the simulated redis server.
+type RedisSpec struct {
+	LatUs   [2]int64   `json:"lat_us"`
+	DownUs  [][2]int64 `json:"down_us,omitempty"`  // [from,to) windows without answers
+	FlushUs []int64    `json:"flush_us,omitempty"` // restarts that lose all data
 }
 
 type RangeSpec struct {
